@@ -206,3 +206,211 @@ pub fn compile(src: &str) -> Result<Program, String> {
         None => Err(r),
     }
 }
+
+/// Undo Rust's `{:?}` escaping of a string literal body (without the surrounding quotes).
+fn unescape_debug(s: &str) -> String {
+    let mut out = String::new();
+    let mut it = s.chars().peekable();
+    while let Some(c) = it.next() {
+        if c != '\\' {
+            out.push(c);
+            continue;
+        }
+        match it.next() {
+            Some('n') => out.push('\n'),
+            Some('r') => out.push('\r'),
+            Some('t') => out.push('\t'),
+            Some('0') => out.push('\0'),
+            Some('\\') => out.push('\\'),
+            Some('"') => out.push('"'),
+            Some('\'') => out.push('\''),
+            Some('u') => {
+                let mut hex = String::new();
+                it.next(); // {
+                while let Some(&h) = it.peek() {
+                    it.next();
+                    if h == '}' {
+                        break;
+                    }
+                    hex.push(h);
+                }
+                if let Some(ch) = u32::from_str_radix(&hex, 16).ok().and_then(char::from_u32) {
+                    out.push(ch)
+                }
+            }
+            Some(o) => out.push(o),
+            None => {}
+        }
+    }
+    out
+}
+
+/// Split the top-level items of a Debug list body `A("x"), B("y")` at commas outside quotes.
+fn split_debug_items(s: &str) -> Vec<String> {
+    let mut items = Vec::new();
+    let mut cur = String::new();
+    let mut in_str = false;
+    let mut esc = false;
+    for c in s.chars() {
+        if in_str {
+            cur.push(c);
+            if esc {
+                esc = false
+            } else if c == '\\' {
+                esc = true
+            } else if c == '"' {
+                in_str = false
+            }
+        } else if c == '"' {
+            in_str = true;
+            cur.push(c)
+        } else if c == ',' {
+            items.push(cur.trim().to_string());
+            cur = String::new()
+        } else {
+            cur.push(c)
+        }
+    }
+    if !cur.trim().is_empty() {
+        items.push(cur.trim().to_string())
+    }
+    items
+}
+
+fn token_wire(dbg: &str) -> String {
+    let simple = [
+        ("Question", "?"), ("Colon", ":"), ("Add", "+"), ("Minus", "-"), ("Multiply", "*"), ("Divide", "/"), ("Mod", "%"),
+        ("Not", "!"), ("Dot", "."), ("Comma", ","), ("LBracket", "["), ("RBracket", "]"), ("LBrace", "{"), ("RBrace", "}"),
+        ("LParen", "("), ("RParen", ")"), ("LessThan", "<"), ("GreaterThan", ">"), ("OrOr", "||"), ("AndAnd", "&&"),
+        ("LessEqual", "<="), ("GreaterEqual", ">="), ("EqualEqual", "=="), ("NotEqual", "!="), ("In", "in"), ("Null", "null"),
+        ("Match", "match"), ("Case", "case"),
+    ];
+    for (k, v) in simple.iter() {
+        if dbg == *k {
+            return v.to_string();
+        }
+    }
+    let inner = |prefix: &str| -> Option<&str> { dbg.strip_prefix(prefix).and_then(|r| r.strip_suffix(')')) };
+    if let Some(b) = inner("BoolLit(") {
+        return b.to_string();
+    }
+    if let Some(n) = inner("IntLit(") {
+        return format!("int:{}", n);
+    }
+    if let Some(n) = inner("UIntLit(") {
+        return format!("uint:{}", n);
+    }
+    if let Some(f) = inner("FloatLit(") {
+        let v: f64 = f.parse().unwrap_or(f64::NAN);
+        return if v.is_nan() { "float:nan".to_string() } else { format!("float:{:016x}", v.to_bits()) };
+    }
+    if let Some(s) = inner("StringLit(\"").and_then(|r| r.strip_suffix('"')) {
+        return format!("str:{}", crate::wire::hex(unescape_debug(s).as_bytes()));
+    }
+    if let Some(s) = inner("Ident(\"").and_then(|r| r.strip_suffix('"')) {
+        return format!("id:{}", crate::wire::hex(unescape_debug(s).as_bytes()));
+    }
+    if let Some(b) = inner("ByteStringLit(CelBytes { inner: [").and_then(|r| r.strip_suffix("] }")) {
+        let bytes: Vec<u8> = b.split(',').filter_map(|x| x.trim().parse().ok()).collect();
+        return format!("bytes:{}", crate::wire::hex(&bytes));
+    }
+    if let Some(l) = inner("FStringLit([").and_then(|r| r.strip_suffix(']')) {
+        let items: Vec<String> = split_debug_items(l)
+            .into_iter()
+            .map(|it| {
+                if let Some(s) = it.strip_prefix("Lit(\"").and_then(|r| r.strip_suffix("\")")) {
+                    format!("L{}", crate::wire::hex(unescape_debug(s).as_bytes()))
+                } else if let Some(s) = it.strip_prefix("Expr(\"").and_then(|r| r.strip_suffix("\")")) {
+                    format!("E{}", crate::wire::hex(unescape_debug(s).as_bytes()))
+                } else {
+                    format!("?{}", it)
+                }
+            })
+            .collect();
+        return format!("fstr:{}", items.join(","));
+    }
+    format!("unknown:{}", dbg)
+}
+
+/// Token stream of the real `StringTokenizer` in the model's `lex` output format.
+pub fn lex_obs(src: &str) -> String {
+    use rscel::{StringTokenizer, Tokenizer};
+    let src = src.to_string();
+    guarded(move || {
+        let mut t = StringTokenizer::with_input(&src);
+        let mut toks = Vec::new();
+        loop {
+            match t.next() {
+                Ok(Some(tok)) => {
+                    let loc = tok.loc;
+                    toks.push(format!(
+                        "{}@{}:{}-{}:{}",
+                        token_wire(&format!("{:?}", tok.token)),
+                        loc.start().line(),
+                        loc.start().col(),
+                        loc.end().line(),
+                        loc.end().col()
+                    ));
+                }
+                Ok(None) => break,
+                Err(e) => return format!("E {}:{}", e.loc().line(), e.loc().col()),
+            }
+            if toks.len() > 100_000 {
+                return "runaway".to_string();
+            }
+        }
+        if toks.is_empty() {
+            "T:0".to_string()
+        } else {
+            format!("T:{} {}", toks.len(), toks.join(" "))
+        }
+    })
+}
+
+/// Replace every `{"FloatingLit": x}` by `{"FloatingLit": "<hex bits>"}` so doubles compare exactly.
+fn canon_floats(v: &mut serde_json::Value) {
+    match v {
+        serde_json::Value::Object(m) => {
+            if let Some(f) = m.get_mut("FloatingLit") {
+                let bits = match f {
+                    serde_json::Value::Number(n) => n.as_f64().map(|x| x.to_bits()),
+                    _ => None,
+                };
+                *f = match bits {
+                    Some(b) if !f64::from_bits(b).is_nan() => serde_json::Value::String(format!("{:016x}", b)),
+                    _ => serde_json::Value::String("nonfinite".to_string()),
+                };
+            }
+            for (_, x) in m.iter_mut() {
+                canon_floats(x)
+            }
+        }
+        serde_json::Value::Array(a) => {
+            for x in a.iter_mut() {
+                canon_floats(x)
+            }
+        }
+        _ => {}
+    }
+}
+
+/// The real AST as canonical JSON text ("E" for a syntax error, "P" for a panic).
+pub fn ast_obs(src: &str) -> String {
+    match compile(src) {
+        Err(e) => {
+            if e == "P" {
+                "P".to_string()
+            } else {
+                "E".to_string()
+            }
+        }
+        Ok(p) => match p.ast() {
+            None => "no-ast".to_string(),
+            Some(a) => {
+                let mut v = serde_json::to_value(a).unwrap_or(serde_json::Value::Null);
+                canon_floats(&mut v);
+                v.to_string()
+            }
+        },
+    }
+}
